@@ -97,7 +97,7 @@ func valueLabel(v ssa.Value) string {
 	s := core.AccessPath(root)
 	if s == "" {
 		if c, ok := root.(*ssa.Call); ok {
-			if f := core.CalleeObj(c); f != nil {
+			if f := core.CalleeObj(c); f != nil && len(c.Call.Args) > 0 {
 				r2, ch2 := pdataChain(c.Call.Args[0])
 				s = core.AccessPath(r2)
 				for _, m := range ch2 {
